@@ -280,6 +280,8 @@ def _esc_text(value: str, mode: str) -> str:
             out.append('&gt;' if mode in ('minimal', 'full') else _charref(c, mode))
         elif c in '"\'' and mode == 'full':
             out.append(_NAMED[c])
+        elif c == '\r':
+            out.append('&#13;')       # a raw CR in text is read back as LF
         elif mode in ('decimal', 'hex') and ord(c) > 0x7E:
             out.append(_charref(c, mode))
         else:
@@ -417,7 +419,8 @@ def _text_of(el, d: dict) -> dict:
 
 
 def _norm(s: Optional[str]) -> str:
-    return ' '.join((s or '').split())
+    from .canon import xml_ws_norm
+    return xml_ws_norm(s or '')
 
 
 def _read_meta(el: ET.Element, version: str) -> Optional[dict]:
